@@ -1551,14 +1551,16 @@ class Data(BaseCartesianData):
 
             comp._data = data
 
+        # Cached masks may depend on the old values, also for composite subset
+        # states and subset states that are not attached to this dataset. This
+        # needs to be done before alerting the hub, since listeners typically
+        # re-compute masks straight away.
+        clear_all_caches()
+
         # alert hub of the change
         if self.hub is not None:
             msg = NumericalDataChangedMessage(self, components_changed=list(mapping.keys()))
             self.hub.broadcast(msg)
-
-        # Cached masks may depend on the old values, also for composite subset
-        # states and subset states that are not attached to this dataset
-        clear_all_caches()
 
     def update_values_from_data(self, data):
         """
@@ -1629,14 +1631,16 @@ class Data(BaseCartesianData):
         # Update data coordinates
         self.coords = data.coords
 
+        # Cached masks may depend on the old values, also for composite subset
+        # states and subset states that are not attached to this dataset. This
+        # needs to be done before alerting the hub, since listeners typically
+        # re-compute masks straight away.
+        clear_all_caches()
+
         # alert hub of the change
         if self.hub is not None:
             msg = NumericalDataChangedMessage(self)
             self.hub.broadcast(msg)
-
-        # Cached masks may depend on the old values, also for composite subset
-        # states and subset states that are not attached to this dataset
-        clear_all_caches()
 
     # The following are methods for accessing the data in various ways that
     # can be overriden by subclasses that want to improve performance.
